@@ -53,7 +53,7 @@ def one(name, extra_checks):
             q = sh(["/venv/bin/python", os.path.join(VERIF, "check.py"), c, "--tier", "quick"], env=env, timeout=3000)
             first = [l for l in q.stdout.splitlines() if l.startswith("violation:")]
             meta["ran"].append({"cmd": "VERIF_REPO=<patched worktree> check.py %s --tier quick" % c, "exit": q.returncode, "first_violation": first[0][:400] if first else None, "summary": q.stdout.strip().splitlines()[-1][:300] if q.stdout.strip() else q.stderr[-300:]})
-        meta["detected_by"] = [r["cmd"].split()[2] for r in meta["ran"] if r["exit"] == 1]
+        meta["detected_by"] = [r["cmd"].split()[3] for r in meta["ran"] if r["exit"] == 1]
         return meta
     finally:
         sh(["git", "-C", "/repo", "worktree", "remove", "--force", wt])
@@ -77,7 +77,7 @@ def main():
             old.update(meta)
             json.dump(old, open(mp, "w"), indent=1)
             ok = meta.get("patch_applies") and meta.get("demo_without_patch_exit") == 0 and meta.get("demo_with_patch_exit", 0) != 0 and "passed" in str(meta.get("suite_with_patch")) and "failed" not in str(meta.get("suite_with_patch"))
-            print("%-10s valid=%s suite=[%s] demo %s->%s  checks: %s" % (meta["id"], ok, meta.get("suite_with_patch"), meta.get("demo_without_patch_exit"), meta.get("demo_with_patch_exit"), [(r["cmd"].split()[2], r["exit"]) for r in meta["ran"]]), flush=True)
+            print("%-10s valid=%s suite=[%s] demo %s->%s  checks: %s" % (meta["id"], ok, meta.get("suite_with_patch"), meta.get("demo_without_patch_exit"), meta.get("demo_with_patch_exit"), [(r["cmd"].split()[3], r["exit"]) for r in meta["ran"]]), flush=True)
     return 0
 
 
